@@ -224,6 +224,33 @@ func guardedByX(info *types.Info, par map[ast.Node]ast.Node, stmt ast.Node, pred
 				}
 			}
 			if cc, ok := pp.(*ast.CaseClause); ok {
+				// clauses are tried in order: entering one means every expression of the clauses before it was false
+				// (tagless) or different from the tag (tagged)
+				if body, _ := par[cc].(*ast.BlockStmt); body != nil {
+					if sw, ok := par[body].(*ast.SwitchStmt); ok && cc.List != nil {
+						for _, other := range body.List {
+							oc := other.(*ast.CaseClause)
+							if oc == cc {
+								break
+							}
+							for _, ce := range oc.List {
+								var fs []Fact
+								if sw.Tag == nil {
+									fs = expandFacts(info, Decompose(ce, false, nil))
+								} else {
+									fs = []Fact{{Expr: &ast.BinaryExpr{X: sw.Tag, Op: token.EQL, Y: ce, OpPos: ce.Pos()}, Val: false}}
+								}
+								for _, f := range fs {
+									if pred(f) {
+										return true
+									}
+								}
+							}
+						}
+					}
+				}
+			}
+			if cc, ok := pp.(*ast.CaseClause); ok {
 				// type switch: the clause is entered when the subject has the clause's type
 				if ts, ok := par[par[cc]].(*ast.TypeSwitchStmt); ok && len(cc.List) == 1 {
 					if subj := TypeSwitchSubject(ts); subj != nil {
